@@ -38,8 +38,9 @@ TRUSTED = [
     "renamed by first appearance; floats converted exactly to fractions; ±π/2 constants recognised by float equality "
     "with the same expression the library evaluates)",
     "Found/Gate.lean restates the documented gate matrices (cross-checked against oracle/dense.py by C01)",
-    "PhaseMonoid (Found/Proj.lean) is the abstract interface instantiated by unitaries modulo global phase; the link "
-    "between `Template.check` (exact ring) and that interface is the intended reading, not formalised",
+    "PhaseMonoid (Found/Proj.lean) is the abstract interface instantiated by unitaries modulo global phase; that `Template.check` "
+    "(exact ring) implies proportionality of the complex operators for all angles is proved (Proof/MatSound, Props/Reflect, "
+    "obligations of C01); instantiating PhaseMonoid itself by matrices modulo scalars is the unformalised step",
     "oracle/c10ref.py (reference semantics of parametric circuits) and oracle/dense.py (dense unitaries)",
 ]
 
